@@ -302,7 +302,7 @@ func verifCanary(label string, cond bool) {}
 //@   canary ensures [C29:canary-always-found] err == nil
 
 //@ func (*AttributeService).Read
-//@   props C29
+//@   props C29 C35
 //@   requires s != nil && srvOK(s.srv)
 //@   requires [arg] typeis(r, *ua.ReadRequest) ==> dyn(r, *ua.ReadRequest) != nil && dyn(r, *ua.ReadRequest).RequestHeader != nil &&
 //@            (forall k int :: { at(dyn(r, *ua.ReadRequest).NodesToRead, k) } off(dyn(r, *ua.ReadRequest).NodesToRead) <= k && k < off(dyn(r, *ua.ReadRequest).NodesToRead) + len(dyn(r, *ua.ReadRequest).NodesToRead) ==>
@@ -310,6 +310,8 @@ func verifCanary(label string, cond bool) {}
 //@   assigns *
 //@   ensures [C29:typed] err == nil ==> typeis(r, *ua.ReadRequest) && typeis(result0, *ua.ReadResponse)
 //@   ensures [C29:one-result-per-node] err == nil ==> len(dyn(result0, *ua.ReadResponse).Results) == len(dyn(r, *ua.ReadRequest).NodesToRead)
+//@   ensures [C35:session-required] err == nil && s.srv.sb != nil && dyn(r, *ua.ReadRequest).RequestHeader.AuthenticationToken != nil ==>
+//@           in(ua.nodeStr(dyn(r, *ua.ReadRequest).RequestHeader.AuthenticationToken), s.srv.sb.s)
 //@   loop 0 invariant -1 <= rangeindex && rangeindex < len(req.NodesToRead) && len(results) == len(req.NodesToRead)
 //@   loop 0 invariant s != nil && s.srv != nil
 //@   loop 0 invariant srvOK(s.srv)
@@ -373,3 +375,25 @@ func verifCanary(label string, cond bool) {}
 //@   assigns *
 //@   after "ua.NewExtensionObject(nil)" assigns nothing
 //@   ensures [C29:typed] err == nil && result0 != nil ==> typeis(result0, *ua.PublishResponse)
+
+// ---------------------------------------------------------------------------
+// C35: services require an activated session. The session table (sessions are keyed by the textual
+// form of their authentication token, ua.nodeStr) behaves as a table -- the supporting obligations
+// below hold -- but no service handler and not the dispatcher ever consults it: [C35:session-required]
+// on the Read service is a known finding (any token, known or not, gets values).
+// ---------------------------------------------------------------------------
+
+//@ func (*sessionBroker).Session
+//@   props C35
+//@   requires sb != nil && authToken != nil
+//@   assigns held(&sb.mu), released(&sb.mu)
+//@   ensures [C35:lookup] result == sb.s[ua.nodeStr(authToken)]
+//@   ensures [C35:unknown-token] !in(ua.nodeStr(authToken), sb.s) ==> result == nil
+//@   canary ensures [C35:canary-always-known] result != nil
+
+//@ func (*sessionBroker).Close
+//@   props C35
+//@   requires sb != nil && authToken != nil
+//@   assigns map(sb.s), held(&sb.mu), released(&sb.mu)
+//@   ensures [C35:closed] !in(ua.nodeStr(authToken), sb.s)
+//@   ensures [C35:others-kept] forall k string :: { in(k, sb.s) } k != ua.nodeStr(authToken) ==> in(k, sb.s) == old(in(k, sb.s)) && sb.s[k] == old(sb.s[k])
